@@ -147,6 +147,59 @@ def layout(k):
     sx.reach("layout")
 
 
+def layout_step():
+    """Inductive step of the layout arithmetic: from any map whose running bit count is L (the invariant
+    `length == sum of the mapped lengths`, established by clear() and kept by this step), add_variable places
+    the new variable at offset L, adds its length to the count and sizes the frame ceil((L+len)/8)."""
+    node = _node()
+    m = node.tpdo[1]
+    m.clear()
+    sx.prove(m.length == 0 and len(m.map) == 0, "clear() establishes the invariant", "C05/layout-step/base")
+    L = sx.fresh_int("L", 0, 63)
+    ln = sx.fresh_int("len", 1, 64)
+    sx.assume(L + ln <= 64)
+    m.length = L
+    v = m.add_variable(C.TYPE_INDEX[0x05], 0, ln)
+    sx.prove(v.offset == L, "offset is the running bit count", "C05/layout-step/offset")
+    sx.prove(v.length == ln, "length kept", "C05/layout-step/length")
+    sx.prove(m.length == L + ln, "running bit count advanced by the length", "C05/layout-step/count")
+    sx.prove(len(m.map) == 1 and m.map[0] is v, "variable appended", "C05/layout-step/appended")
+    n = len(m.data)
+    sx.observe("n", n)
+    sx.prove(8 * n >= L + ln, "frame holds all bits", "C05/layout-step/size-min")
+    sx.prove(8 * n < L + ln + 8, "frame is ceil(total/8) bytes", "C05/layout-step/size-max")
+    sx.reach("layout-step")
+
+
+def layout_concrete(lens):
+    """Concrete layouts of 6..8 variables end to end (offsets, frame size) and independence of neighbours:
+    writing variable j (symbolic value) leaves every other variable's value unchanged."""
+    node = _node()
+    m = node.tpdo[1]
+    m.clear()
+    vs = [m.add_variable(C.TYPE_INDEX[0x05], 0, ln) for ln in lens]
+    total = sum(lens)
+    sx.prove(len(m.data) == (total + 7) // 8, "frame size", "C05/layout-concrete/size")
+    off = 0
+    for v, ln in zip(vs, lens):
+        sx.prove(v.offset == off and v.length == ln, "offset/length", "C05/layout-concrete/offset")
+        off += ln
+    frame = sx.fresh_bytes("frame", len(m.data))
+    m.data = sx.mod("builtins").bytearray(frame) if not sx.symbolic() else _ba(frame)
+    before = [v.raw for v in vs]
+    j = sx.choice(len(lens), "j")
+    val = sx.fresh_int("val", 0, (1 << lens[j]) - 1)
+    vs[j].raw = val
+    after = [v.raw for v in vs]
+    sx.observe("after", after)
+    for i in range(len(lens)):
+        if i == j:
+            sx.prove(after[i] == val, "written value reads back", "C05/layout-concrete/readback")
+        else:
+            sx.prove(after[i] == before[i], "neighbour undisturbed", "C05/layout-concrete/neighbour")
+    sx.reach("layout-concrete")
+
+
 def default_lengths():
     """An object mapped without a custom length occupies its own bit length."""
     node = _node()
@@ -184,6 +237,13 @@ def jobs(tier):
     for k in range(1, (4 if tier == "quick" else 5) + 1):
         out.append(dict(func="layout", params=dict(k=k), weight=k))
     out.append(dict(func="default_lengths", params={}))
+    out.append(dict(func="layout_step", params={}, weight=4))
+    concrete = [[8] * 8, [1, 2, 3, 4, 5, 6, 7, 8], [1, 1, 1, 1, 1, 1, 1, 57], [3, 5, 7, 9, 11, 13]]
+    if tier == "thorough":
+        concrete += [[7, 9, 7, 9, 7, 9, 16], [1] * 8, [2, 6, 8, 8, 8, 8, 8, 16], [13, 3, 16, 1, 7, 24], [5, 5, 5, 5, 5, 5, 5, 5],
+                     [64 - 21, 1, 2, 3, 4, 5, 6], [9, 9, 9, 9, 9, 9, 9]]
+    for lens in concrete:
+        out.append(dict(func="layout_concrete", params=dict(lens=lens), weight=len(lens)))
     return out
 
 
@@ -198,14 +258,16 @@ META = dict(
                "(cross-checked natively on every sampled path).",
     bounds=dict(quick="all 16 integer types (8-bit types with field lengths 1..8), BOOLEAN (1 and 8 bits), REAL32/64; "
                       "frame length F=1..8 bytes; offset symbolic over 0..8F-len; frame content and value fully "
-                      "symbolic; layout arithmetic for k<=4 variables with symbolic lengths",
-                thorough="as quick; layout arithmetic for k<=5 (k=6 ran past 800 s)"),
+                      "symbolic; layout arithmetic for k<=4 variables with symbolic lengths, plus the inductive "
+                      "layout step (symbolic running bit count 0..63 and length 1..64) and 4 concrete layouts of 6..8 "
+                      "variables with a symbolic frame and a symbolic written value",
+                thorough="as quick; layout arithmetic for k<=5 (k=6 ran past 800 s); 11 concrete layouts of 6..9 variables"),
     outside_bounds=["frames longer than 8 bytes (CAN classic limit of the property)", "values that do not fit the "
                     "field", "sub-byte fields of multi-byte types (not in the statement)"],
     assumptions=["offset/length attributes set directly on the PdoVariable for the field harness (the layout "
                  "harness proves add_variable computes them as the running sum)"],
     stubs=["struct", "bytes", "bytearray", "math.ceil on exact rationals", "logging -> null"],
-    required_reach=["read", "write", "layout", "own-length"],
+    required_reach=["read", "write", "layout", "own-length", "layout-step", "layout-concrete"],
     limits=dict(quick=dict(query_timeout_ms=60000), thorough=dict(query_timeout_ms=300000, crosscheck_every=5, crosscheck_max=30)),
     validate_every=dict(quick=3, thorough=1),
 )
